@@ -171,6 +171,7 @@ structure State where
   blockReq : Option Bytes := none   -- n.blockRequest (hash); n.requestTime != nil exactly when this is set
   blockHandler : Bool := false      -- n.blockHandler != nil
   blockReader : Bool := false       -- n.blockReader != nil: handleBlock is streaming the requested block
+  blockStarted : Bool := false      -- n.blockStarted: the block handler has been started for this request
   onStopArmed : Bool := false       -- n.blockOnStop != nil
   onStopCalls : Nat := 0            -- how often run() invoked the request's onStop
   bh : BlockRec := {}               -- what the handler of the latest request saw
@@ -244,7 +245,7 @@ def State.busy (s : State) : Bool := s.blockReq.isSome
 /-- `RequestBlock` on an idle node (called by the block manager on a node that `nextNode`
     returned): handler table, request, handler, `onStop` armed after the getdata was queued. -/
 def requestBlock (s : State) (hash : Bytes) : State × List Effect :=
-  ({ s with blockReq := some hash, blockHandler := true, blockReader := false, onStopArmed := true,
+  ({ s with blockReq := some hash, blockHandler := true, blockReader := false, blockStarted := false, onStopArmed := true,
             bh := {}, table := s.table.set "block" .block },
    [.send "getdata" 1])
 
@@ -252,24 +253,11 @@ def requestBlock (s : State) (hash : Bytes) : State × List Effect :=
 def requestBlock? (s : State) (hash : Bytes) : Option (State × List Effect) :=
   if s.busy then none else some (requestBlock s hash)
 
-/-- `CancelBlockRequest`: the result says whether `blockReader` was set (the block message of the
-    requested block has started). The request itself (`blockRequest`, `requestTime`, the handler
-    table entry) stays until the block message is handled: a cancelled node remains busy. When the
-    reader was set it is closed: the streaming `handleBlock` fails at its next read. -/
-def cancelBlock (s : State) (hash : Bytes) : State × Bool :=
-  match s.blockReq with
-  | none => (s, false)
-  | some want =>
-    if want ≠ hash then (s, false)
-    else if s.blockReader then
-      ({ s with blockReader := false, onStopArmed := false, blockHandler := false }, true)
-    else ({ s with onStopArmed := false, blockHandler := false }, false)
-
 /-- `completeBlock`. -/
 def completeBlock (s : State) (hash : Bytes) : State :=
   if s.blockReq = some hash then
-    { s with blockReq := none, blockHandler := false, blockReader := false, onStopArmed := false,
-             table := s.table.del "block" }
+    { s with blockReq := none, blockHandler := false, blockReader := false, blockStarted := false,
+             onStopArmed := false, table := s.table.del "block" }
   else s
 
 /-- the end of `run()`: `blockOnStop` is called if it is still set. -/
@@ -277,19 +265,49 @@ def runEnd (s : State) : State × Bool :=
   if s.onStopArmed then ({ s with onStopArmed := false, onStopCalls := s.onStopCalls + 1, ready := false }, true)
   else ({ s with ready := false }, false)
 
+/-- the handler of a stream that is cut short returns an error. -/
+def failedRec (r : BlockRec) : BlockRec :=
+  if r.called && r.done.isNone then { r with done := some false } else r
+
+/-- the state a streaming `handleBlock` leaves when its read fails. Once the handler was started the
+    transaction channel is closed (the handler returns an error) and the request is completed;
+    before that (header matched, count not read: fix 6b52a4a) the request is left outstanding so
+    that `run()` reports it through `onStop`. -/
+def streamFailed (s : State) : State :=
+  if s.blockReader && s.blockStarted then
+    match s.blockReq with
+    | some h => { completeBlock s h with bh := failedRec s.bh }
+    | none => { s with bh := failedRec s.bh }
+  else s
+
 /-- the connection ends (peer dropped it, or the node stopped). A `handleBlock` that is streaming
     fails at its read: it closes the transaction channel (the handler, if it was started, returns
     an error), `completeBlock` clears the request — so `onStop` is NOT invoked for a block whose
     message had begun — and then `run()` ends. -/
-def connectionEnd (s : State) : State × Bool :=
-  let s1 :=
-    if s.blockReader then
-      let bh := if s.bh.called && s.bh.done.isNone then { s.bh with done := some false } else s.bh
-      match s.blockReq with
-      | some h => { completeBlock s h with bh := bh }
-      | none => { s with bh := bh }
-    else s
-  runEnd s1
+def connectionEnd (s : State) : State × Bool := runEnd (streamFailed s)
+
+/-- `CancelBlockRequest`.
+    * no request / another hash: nothing, `false`;
+    * the block message has not begun (`blockReader` nil): `onStop` and the handler are dropped,
+      `false`; the request itself (`blockRequest`, `requestTime`, the table entry) stays until the
+      block message is handled: a cancelled node remains busy;
+    * the block message has begun: the CONNECTION is closed first (`closeConnection`, fix 7843a17:
+      the reader's mutex is held by the pending read of a stalled peer), the reader is closed,
+      `onStop` and the handler are dropped and the answer is `blockStarted` (fix 3cf55e1: `true`
+      only when the handler thread was started). The streaming `handleBlock` fails at its read;
+      if the handler was started it gets the end of its stream and the request is completed, if
+      not the request is left as it is (fix 6b52a4a) with `onStop` already dropped; `run()` ends. -/
+def cancelBlock (s : State) (hash : Bytes) : State × Bool :=
+  match s.blockReq with
+  | none => (s, false)
+  | some want =>
+    if want ≠ hash then (s, false)
+    else if s.blockReader then
+      if s.blockStarted then
+        ((connectionEnd { s with onStopArmed := false, blockHandler := false, stopped := true }).1, true)
+      else
+        ((runEnd { s with onStopArmed := false, blockHandler := false, blockReader := false, stopped := true }).1, false)
+    else ({ s with onStopArmed := false, blockHandler := false }, false)
 
 /-! ### NodeManager.nextNode (node_manager.go) over the flags of the managed nodes -/
 
